@@ -61,13 +61,26 @@ func genC09(r *h.Rng, tier string, idx int) *h.Plan {
 	for _, l := range locs {
 		allIds = append(allIds, "r"+l, "made-r"+l)
 	}
+	// ... except in runs whose locations stay unrelated (no parents): there
+	// every location keeps its own, different rule under one and the same id
+	sameIds := r.P(1, 6)
+	rid := func(l string) string {
+		if sameIds {
+			return "rs"
+		}
+		return "r" + l
+	}
+	if sameIds {
+		p.Cfg["mode"] = "sameruleids"
+		allIds = append(allIds, "rs", "made-rs")
+	}
 	p.Cfg["ids"] = toIface(allIds)
 	parents := map[string][]string{}
 	for _, l := range locs {
 		parents[l] = nil
 		p.Ops = append(p.Ops, h.Op{K: "addfact", Loc: l, Id: "f0", J: map[string]interface{}{"touch": l}})
 	}
-	loopy := r.P(1, 6) // some runs try self and indirect loops (error clause)
+	loopy := !sameIds && r.P(1, 6) // some runs try self and indirect loops (error clause)
 	// some runs let an ancestor be reachable along two paths: everything that
 	// such an ancestor does not itself contribute to stays judged
 	diamonds := !loopy && r.P(1, 4)
@@ -94,13 +107,16 @@ func genC09(r *h.Rng, tier string, idx int) *h.Plan {
 				// however many bindings the condition yields)
 				rule["condition"] = map[string]interface{}{"pattern": map[string]interface{}{"touch": "?t"}}
 				rule["action"] = map[string]interface{}{"code": ActionCode([]h.Op{
-					{K: "addfact", Id: "made-r" + l, J: map[string]interface{}{"madeby": "r" + l}}}, fmt.Sprintf("%s.%d", l, i))}
+					{K: "addfact", Id: "made-" + rid(l), J: map[string]interface{}{"madeby": "r" + l}}}, fmt.Sprintf("%s.%d", l, i))}
 			}
-			p.Ops = append(p.Ops, h.Op{K: "addrule", Loc: l, Id: "r" + l, J: rule})
+			p.Ops = append(p.Ops, h.Op{K: "addrule", Loc: l, Id: rid(l), J: rule})
 		case 3:
-			p.Ops = append(p.Ops, h.Op{K: "remrule", Loc: l, Id: "r" + l})
+			p.Ops = append(p.Ops, h.Op{K: "remrule", Loc: l, Id: rid(l)})
 		case 4:
 			// change the parent set, keeping single paths unless this run is loopy
+			if sameIds {
+				continue
+			}
 			var ps []string
 			for try := 0; try < 6; try++ {
 				ps = nil
@@ -128,7 +144,7 @@ func genC09(r *h.Rng, tier string, idx int) *h.Plan {
 			parents[l] = ps
 			p.Ops = append(p.Ops, h.Op{K: "setparents", Loc: l, L: ps})
 		case 5:
-			p.Ops = append(p.Ops, h.Op{K: "enable", Loc: l, Id: "r" + r.Pick(locs), B: r.Bool()})
+			p.Ops = append(p.Ops, h.Op{K: "enable", Loc: l, Id: rid(r.Pick(locs)), B: r.Bool()})
 		case 7:
 			// the rule-side entry points of inheritance (and of the loop check)
 			if r.Bool() {
